@@ -110,6 +110,13 @@ func ringUnit(c *core.Ctx, capacity int) {
 		}
 		frontier = next
 		depth++
+		if depth >= 6*capacity+6 && len(frontier) > 0 {
+			// a bounded FIFO of this capacity over three values has finitely many concrete states and the unchanged
+			// Ring closes at depth 3*capacity; an implementation that counts (free-running positions) never closes:
+			// stop at twice that depth and say so, the long wrap-around histories take over from there
+			c.NotExhaustive(fmt.Sprintf("Ring capacity %d: the concrete state space did not close within depth %d (%d states); every history up to that depth was compared with the model", capacity, depth, len(seen)))
+			break
+		}
 	}
 	c.States += int64(len(seen))
 	c.Evaluations += int64(len(seen))
@@ -523,10 +530,52 @@ func ringLongUnit(c *core.Ctx, n int) {
 	}
 }
 
+// ringWrapUnit pushes one ring through n puts (n beyond 2^16 in the quick tier and beyond 2^32 in the thorough tier), so
+// that every position or count the implementation keeps in a 16- or 32-bit integer wraps at least once; every Put is
+// compared with the bounded-FIFO model (the displaced element is the one put `capacity` calls earlier), and the queries
+// and a drain at the end.
+func ringWrapUnit(c *core.Ctx, capacity int, n int64) {
+	r := helper.NewRing[int64](capacity)
+	k := int64(capacity)
+	for i := int64(0); i < n; i++ {
+		got := r.Put(i)
+		if i >= k && got != i-k {
+			c.Fail("", fmt.Sprintf("Ring[int64] capacity %d, put number %d (counting from 0): returned %d, the displaced oldest element is %d", capacity, i, got, i-k), nil)
+			return
+		}
+	}
+	if !r.IsFull() || r.IsEmpty() {
+		c.Fail("", fmt.Sprintf("Ring[int64] capacity %d after %d puts: IsFull=%v IsEmpty=%v", capacity, n, r.IsFull(), r.IsEmpty()), nil)
+		return
+	}
+	for j := 0; j < capacity; j++ {
+		if want := n - k + int64(j); r.At(j) != want {
+			c.Fail("", fmt.Sprintf("Ring[int64] capacity %d after %d puts: At(%d) = %d, that element is %d", capacity, n, j, r.At(j), want), nil)
+			return
+		}
+	}
+	for j := 0; j < capacity; j++ {
+		g, ok := r.Get()
+		if want := n - k + int64(j); !ok || g != want {
+			c.Fail("", fmt.Sprintf("Ring[int64] capacity %d after %d puts: Get number %d = (%d,%v), the oldest element is %d", capacity, n, j, g, ok, want), nil)
+			return
+		}
+	}
+	if _, ok := r.Get(); ok || !r.IsEmpty() {
+		c.Fail("", fmt.Sprintf("Ring[int64] capacity %d after %d puts and %d gets: not empty", capacity, n, capacity), nil)
+		return
+	}
+	c.States += n
+	c.Evaluations += n
+	c.Nontrivial += n
+	c.Executions++
+	c.Transitions += n
+}
+
 func init() {
 	core.Register(&core.Check{
 		ID:   "C17",
-		Rule: "explicit-state BFS over operation histories of the real Ring and Bst objects with deduplication on the deep dump of the concrete object (sound: deterministic objects with equal concrete state have equal futures); Ring to fixpoint for capacities 1..4 (5 thorough) over values {1,2,3}; Bst per element type over {min,-1,0,1,max} with multiset size bounded; after every transition every query is compared with the bounded-FIFO / multiset model; non-trivial = non-initial states; plus long deterministic histories: the tree driven as a sliding window (sizes 1, 2, 9, 70, 150, all) over staircases with duplicates, plateaus, a sawtooth, alternating growing pairs and a de Bruijn series of 1 200 (6 000) values in int, int64 and float64, and rings of capacity 1..1000 wrapping through 4 800 (24 000) puts, every query compared with the model after every step",
+		Rule: "explicit-state BFS over operation histories of the real Ring and Bst objects with deduplication on the deep dump of the concrete object (sound: deterministic objects with equal concrete state have equal futures); Ring to fixpoint for capacities 1..4 (5 thorough) over values {1,2,3}; Bst per element type over {min,-1,0,1,max} with multiset size bounded; after every transition every query is compared with the bounded-FIFO / multiset model; non-trivial = non-initial states; plus long deterministic histories: the tree driven as a sliding window (sizes 1, 2, 9, 70, 150, all) over staircases with duplicates, plateaus, a sawtooth, alternating growing pairs and a de Bruijn series of 1 200 (6 000) values in int, int64 and float64, and rings of capacity 1..1000 wrapping through 4 800 (24 000) puts, every query compared with the model after every step; rings of capacity 3, 4, 5, 7 through 2^16+64 (thorough: 2^32+64) puts, so that 16- and 32-bit positions or counts wrap, every Put compared with the model",
 		Assume: []string{"Ring values range over {1,2,3} (int elements); Bst values over five values per type including both extremes; multiset size <= 5 (quick) / 7 (thorough)",
 			"Put on a non-full ring and At beyond the current size are unconstrained by the property and not compared"},
 		Units: func(tier string) []core.Unit {
@@ -549,6 +598,14 @@ func init() {
 			}
 			us = append(us, core.Unit{Key: "bst-long-histories", Cost: 200, Run: func(c *core.Ctx) { bstLongUnit(c, long) }})
 			us = append(us, core.Unit{Key: "ring-long-histories", Cost: 50, Run: func(c *core.Ctx) { ringLongUnit(c, 4*long) }})
+			wrap := int64(1)<<16 + 64
+			if tier == "thorough" {
+				wrap = int64(1)<<32 + 64
+			}
+			for _, capacity := range []int{3, 4, 5, 7} {
+				capacity := capacity
+				us = append(us, core.Unit{Key: fmt.Sprintf("ring-counter-wrap-%d", capacity), Cost: 400, Run: func(c *core.Ctx) { ringWrapUnit(c, capacity, wrap) }})
+			}
 			return us
 		},
 	})
